@@ -508,7 +508,7 @@ def write_evidence(prop, tier, seed, results, obligs, controls, n_valid, violati
     from .source import DROPPED
     assumptions = [
         "pyvc itself (AST interpreter, descriptor/MRO model, path splitter, VC builder) is trusted; "
-        "mitigated by negative controls on every run and by the conformance/mutant self-tests",
+        "mitigated by negative controls and vacuity guards on every run, native replay of counterexamples, bounded companions on the real code and the seeded changes of DESIGN.md section 6",
         "z3 %s and cvc5 are trusted" % _z3v(),
         "Python ints are mathematical integers (exact); interpreter stack and memory unbounded (A-STACK)",
         "built-in models follow CPython 3.12 semantics, including exception classes/messages (A-MSG)",
